@@ -49,6 +49,21 @@ Definition CopyInv (st : istate) : Prop :=
 Lemma CopyInv_init buf : CopyInv (i_init buf).
 Proof. intros x sub e t [[]|[]]. Qed.
 
+Lemma fea_all_none l b : (forall o, In o l -> b < h_b o -> h_d o = None) -> first_end_after l b = None.
+Proof.
+  induction l as [|a l IH]; intro H; cbn; [reflexivity|].
+  assert (IH' : first_end_after l b = None) by (apply IH; intros o Ho; apply H; now right).
+  destruct (b <? h_b a) eqn:E; [|exact IH']. apply Z.ltb_lt in E. rewrite (H a (or_introl eq_refl) E). exact IH'.
+Qed.
+
+Lemma effk_tail_open H k : In k H -> tail_open H k -> effk H k = None.
+Proof.
+  intros Hin TO. rewrite effk_unfold.
+  assert (Hd : h_d k = None) by (apply TO; [assumption | reflexivity | lia]).
+  destruct (h_o k); try exact Hd.
+  apply fea_all_none. intros o Ho Hb. apply xops_In in Ho as [Ho1 Ho2]. apply TO; [assumption | assumption | lia].
+Qed.
+
 (** the copy a visiting publisher is about to hand over *)
 Lemma Phi_create st c e t x sub fs todo rest :
   Inv (i_s st) -> HInv st -> PubInv st -> AInv st ->
@@ -63,14 +78,8 @@ Proof.
   destruct (AI x sub fs Htodo) as (q & Hq & Hcq & Hoq & Hk).
   exists P, q, fs. repeat split; auto.
   - rewrite HdP. reflexivity.
-  - intros k Hin Hck Hb He. destruct (Hk k Hin Hck Hb He) as [Pd Lk].
-    assert (Hne : c_pc (r_cs (i_s st) x) <> []).
-    { intro X. rewrite X in Pd. apply eff_pending_has in Pd. discriminate. }
-    destruct (h_busy st HI x Hne) as (h & Hh & Hch & Hdh & Lh).
-    assert (k = h).
-    { eapply hop_eq_of_b; [apply HI | assumption | assumption |].
-      specialize (Lk h Hh). specialize (Lh k Hin Hck). rewrite Hch, Hck in Lk. specialize (Lk eq_refl). lia. }
-    subst h. rewrite effk_last_none; [reflexivity | exact Lk | exact Hdh].
+  - intros k Hin Hck Hb He. destruct (Hk k Hin Hck Hb He) as [Pd TO].
+    rewrite (effk_tail_open _ _ Hin TO). reflexivity.
 Qed.
 
 Lemma HInv_time_lt st h : HInv st -> In h (i_hops st) -> h_b h < i_now st.
@@ -188,10 +197,10 @@ Proof.
   destruct (h_o h); auto. destruct (str_eqb (ev_id e) id); auto.
 Qed.
 
-Lemma pbl_close c k H id : pub_begin_l (close_hop c k H) id = pub_begin_l H id.
+Lemma pbl_close d c k H id : pub_begin_l (close_hop d c k H) id = pub_begin_l H id.
 Proof.
   induction H as [|h H IH]; [reflexivity|]. cbn [close_hop List.map]. rewrite !pbl_cons, close1_o, close1_b.
-  fold (close_hop c k H). now rewrite IH.
+  fold (close_hop d c k H). now rewrite IH.
 Qed.
 
 Lemma pbl_exists H P e : In P H -> h_o P = OEvent e -> exists b, pub_begin_l H (ev_id e) = Some b.
@@ -211,7 +220,7 @@ Proof.
 Qed.
 
 Lemma pbl_hchange now H H' id b : hchange now H H' -> pub_begin_l H id = Some b -> pub_begin_l H' id = Some b.
-Proof. intros [->| c o ->| c ->] E; [assumption | now apply pbl_app_some | now rewrite pbl_close]. Qed.
+Proof. intros [->| c o ->| d c ->] E; [assumption | now apply pbl_app_some | now rewrite pbl_close]. Qed.
 
 Definition fullpred (H : list hop) (bP : Z) (dP : option Z) (m : smsg) (r : option Z) : bool :=
   match m with
@@ -296,7 +305,8 @@ Proof.
   intros x sub e t Hd' Hin'. rewrite istep_s in *.
   assert (Time : forall h, In h (i_hops st) -> h_b h < i_now st) by (intros h Hh; now apply HInv_time_lt).
   assert (Hd : c_dead (r_cs (i_s st) x) = false).
-  { destruct (trans_ops _ _ _ x T) as [[_ E]|(o & -> & _)]; [congruence|]. now destruct (trans_actor _ _ _ T). }
+  { destruct (trans_ops _ _ _ x T) as [[_ E]|(o & [->|(-> & -> & Hc)] & _)]; [congruence | now destruct (trans_actor _ _ _ T)|].
+    now apply (inv_cancel _ I). }
   (* the claim with respect to the old state *)
   assert (Pre : exists P, pub_nth (i_hops st) (fst t) (snd t) P /\ h_o P = OEvent e /\
             (r_buf (i_s st) <= cntf (i_hops st) (h_b P) (h_d P) (i_outs st x)
@@ -347,7 +357,7 @@ Proof.
       apply (Phi_has_pub _ x). eapply CopyInv_pre; try eassumption. left.
       unfold evs. apply filter_In. split; [|reflexivity]. apply In_flow.
       destruct Hm as [Hm|Hm].
-      + left. unfold outs' in Hm. destruct (HInv_step st l HI) as [_ _ _ _ _ _ Ho]. destruct (Ho x) as [Ho1 _].
+      + left. unfold outs' in Hm. destruct (HInv_step buf st l R HI) as [_ _ _ _ _ _ _ Ho]. destruct (Ho x) as [Ho1 _].
         rewrite Ho1, istep_s in Hm. exact Hm.
       + unfold hq', hand_list in Hm. apply in_app_iff in Hm as [Hm|Hm]; [|auto].
         destruct (c_hand (r_cs (step (i_s st) l) x)); [|contradiction]. destruct Hm as [->|[]]. auto. }
